@@ -330,17 +330,28 @@ def check_units(prog, rep):
                 break
         pos = body.index(un_if[1]) if un_if[1] in body else None
         if uvar is not None and pos is not None:
-            def only_unit(n_):
-                return all(x.id in (uvar, 'len', 'str') for x in ast.walk(n_) if isinstance(x, ast.Name))
-            chain = [s_ for s_ in body[:pos] if isinstance(s_, (ast.Assign, ast.AugAssign, ast.If)) and only_unit(s_) and
-                     any(isinstance(x, ast.Name) and x.id == uvar and isinstance(x.ctx, ast.Store) for x in ast.walk(s_))]
+            # backward slice: the statements that define the looked-up name, and what they read, back to the token list
+            needed = {uvar}
+            chain = []
+            for s_ in reversed(body[:pos]):
+                if isinstance(s_, ast.If) and any(isinstance(x, ast.Raise) for x in ast.walk(s_)):
+                    continue
+                tg = {x.id for x in ast.walk(s_) if isinstance(x, ast.Name) and isinstance(x.ctx, ast.Store)}
+                if not (tg & needed) or not isinstance(s_, (ast.Assign, ast.AugAssign, ast.If)):
+                    continue
+                if tg & toks:
+                    continue            # the split itself: the token list is given by the model
+                chain.insert(0, s_)
+                needed |= {x.id for x in ast.walk(s_) if isinstance(x, ast.Name) and isinstance(x.ctx, ast.Load)}
             try:
                 table_ = fold_expr(prog, m, ast.Name(id='UNITS', ctx=ast.Load()))
                 keys = list(table_.keys())
                 bad_ = []
                 for k_ in keys:
                     for v_ in (k_, k_.upper(), ' ' + k_, k_.title() + ' '):
-                        env_ = {uvar: v_}
+                        env_ = {t_: ['3', v_] for t_ in toks}
+                        if not (needed & toks):
+                            env_[uvar] = v_          # the unit name is bound straight from the token elsewhere
                         Folder(prog, m).block(chain, env_)
                         if env_[uvar] not in table_ or table_[env_[uvar]] != table_[k_]:
                             bad_.append((v_, env_[uvar], 'no unit' if env_[uvar] not in table_ else 'another unit'))
